@@ -8,18 +8,18 @@ open Heimdall.CacheKey Heimdall.CacheExec
 /-- a request to the remote authorizer `m1`: rendered values `{a: "bc", ab: "c", z: ""}`, payload `{}`, two response
 headers to forward, `cache_ttl: 10m`; the digests of endpoint and subject are 32 bytes each -/
 def envA : Env where
-  str s := if s = "a.id" then [109, 49] else if s = "payload" then [123, 125] else
-    if s = "a.e.Hash()" then List.replicate 32 7 else if s = "sub.Hash()" then List.replicate 32 9 else []
-  num s := if s = "a.ttl" then 600000000000 else 0
-  lst s := if s = "a.headersForUpstream" then [[88, 45, 65], [88, 45, 66]] else []
-  map s := if s = "values" then [([97], [98, 99]), ([97, 98], [99]), ([122], [])] else []
+  str s := if s = "recv.id" then [109, 49] else if s = "arg2" then [123, 125] else
+    if s = "recv.e.Hash()" then List.replicate 32 7 else if s = "arg0.Hash()" then List.replicate 32 9 else []
+  num s := if s = "recv.ttl" then 600000000000 else 0
+  lst s := if s = "recv.headersForUpstream" then [[88, 45, 65], [88, 45, 66]] else []
+  map s := if s = "arg1" then [([97], [98, 99]), ([97, 98], [99]), ([122], [])] else []
 
 /-- the same request, the runtime iterating the values in the opposite order -/
 def envA' : Env := { envA with map := fun s => (envA.map s).reverse }
 
 /-- the same request with the boundary between a key and its value shifted: `{a: "b", abc: "", z: ""}` -/
 def envB : Env :=
-  { envA with map := fun s => if s = "values" then [([97], [98]), ([97, 98, 99], []), ([122], [])] else [] }
+  { envA with map := fun s => if s = "arg1" then [([97], [98]), ([97, 98, 99], []), ([122], [])] else [] }
 
 /-- `Endpoint.Hash` before the repair: url, method, headers in map order, optional strategy digest -/
 def legacyEndpoint : List Field :=
@@ -38,5 +38,16 @@ def demo (recheck : Bool) : Mech (Nat × Nat) Nat where
   enabled _ := true
   ttl _ _ := 10
   recheck := recheck
+  recode := id
+
+/-- the same mechanism with a cache whose serialisation halves the level of a response (stands for a YAML integer
+coming back as a float, a `[]string` coming back as `[]any`): a value read back differs from the value stored -/
+def lossy : Mech (Nat × Nat) Nat := { demo true with recode := fun v => v / 2 }
+
+/-- a table in which every user of the shared cache starts its key with a constant of its own -/
+def taggedTable : List (String × List Field) :=
+  [("genericAuthenticator", [.tag [1], .lp "x"]), ("introspection", [.tag [2], .lp "x"]), ("jwtAuthenticator", [.tag [3], .lp "x"]),
+   ("remoteAuthorizer", [.tag [4], .lp "x"]), ("genericContextualizer", [.tag [5], .lp "x"]), ("jwtFinalizer", [.tag [6], .lp "x"]),
+   ("clientCredentialsKey", [.tag [7], .lp "x"]), ("httpCache", [.tag [8], .lp "x"])]
 
 end Heimdall.CacheExec.Witness
